@@ -200,6 +200,13 @@ def probe_sets(curie_pool, uri_pool, id_pool, delimiters, max_ids=3, compact=Fal
                 out.append(u[:-1])
         for d2 in delimiters[1:]:
             out.append(curie_pool[0] + d2 + "1")
+        # tokens the C10 generators invent on the fly (fresh names for mutations and remappings)
+        for n in (1, 2, 3, 4):
+            out.append(f"mx{n}" + d + "1")
+            out.append(f"m:{n}/1")
+        for n in (1, 2, 3):
+            out.append(f"new{n}" + d + "1")
+            out.append(f"n:{n}/1")
         out.append("no delimiter here")
         strings = list(dict.fromkeys(out))
         pairs = [(p, id_pool[n % len(id_pool)]) for n, p in enumerate(curie_pool)] + [("zz", "1")]
